@@ -36,7 +36,8 @@ KINDS = {
     'slow': {'die': {'15': 0.3}},
     'stubborn': {'ignore': [15]},
 }
-ARRIVALS = ['idle', 'idle', 'startup', 'during-stop', 'during-restart', 'respawning-check', 'during-long-stop']
+ARRIVALS = ['idle', 'idle', 'startup', 'during-stop', 'during-restart', 'respawning-check', 'during-long-stop',
+            'early-startup']
 METHODS = ['quit', 'TERM', 'INT', 'QUIT']
 
 
@@ -52,6 +53,8 @@ def plan(tier, seed):
         out.append({'arrival': 'idle', 'how': 'quit', 'prepid': pre, 'seed': seed, 'idx': len(out)})
     # a long exclusive operation: the signal arrives many seconds before it ends
     out.append({'arrival': 'during-long-stop', 'how': 'TERM', 'seed': seed, 'idx': len(out)})
+    out.append({'arrival': 'early-startup', 'how': 'TERM', 'seed': seed, 'idx': len(out)})
+    out.append({'arrival': 'early-startup', 'how': 'INT', 'seed': seed, 'idx': len(out)})
     n = 0 if tier == 'quick' else 140
     for i in range(n):
         out.append({'random': True, 'seed': seed, 'idx': 100 + i})
@@ -73,6 +76,9 @@ def build(rnd, spec):
     if arrival == 'respawning-check':
         ws[0].update(kind='obedient', np=3, warmup=1)
     gw = 1 if arrival == 'startup' else 0
+    if arrival == 'early-startup':
+        # the signal arrives the moment the pid file appears: nothing is started yet, the loop does not run yet
+        spec = dict(spec, pidfile=spec.get('pidfile') or rnd.choice(['config', 'cli']))
     if arrival == 'startup':
         # the first watcher is already up (and slow to stop) when the signal arrives, others are still pending
         ws[0]['kind'] = rnd.choice(['stubborn', 'stubborn', 'slow'])
@@ -106,6 +112,8 @@ def run_case(spec):
                     prepid=rnd.choice([None] * 6 + ['live', 'dead', 'empty', 'garbage', 'negative', 'zero', 'own']))
         if spec['prepid']:
             spec['arrival'] = 'idle'
+        if spec['arrival'] == 'early-startup' and spec['how'] == 'quit':
+            spec['how'] = 'TERM'          # no endpoint to send a request to yet
     conf = build(rnd, spec)
     d = live.Daemon('', strace=True)
     d.ini = ini_for(d, conf).replace('@DIR@', d.dir).replace('@LOG@', d.logdir)
@@ -170,7 +178,17 @@ def _case(d, conf, spec, pidfile, res):
         res.sample = {'case': 'pid file names a live process', 'exit_status': rc}
         return
     nworkers = sum(w['np'] for w in conf['watchers'])
-    if arrival == 'startup':
+    if arrival == 'early-startup':
+        t_end = time.time() + 15
+        while time.time() < t_end and not (os.path.exists(pidfile) and open(pidfile).read().strip()):
+            if d.proc.poll() is not None:
+                break
+            time.sleep(0.001)
+        if not os.path.exists(pidfile):
+            res.inconclusive.append('pid file never appeared: %s' % d.output()[-300:])
+            return
+        time.sleep(spec.get('early_delay', 0.0))
+    elif arrival == 'startup':
         if not d.wait_bound(15):
             res.inconclusive.append('daemon did not bind its endpoint: %s' % d.output()[-300:])
             return
@@ -225,10 +243,12 @@ def _case(d, conf, spec, pidfile, res):
         time.sleep(0.9)           # check_delay 0.5: the check is now respawning 3 workers 1 s apart
     elif arrival == 'startup':
         inflight = 'arbiter_start_watchers'
+    elif arrival == 'early-startup':
+        inflight = 'start-up'
     kids = [(p, stt) for p, st, stt in d.children()]
     sock_path = os.path.join(d.dir, 'managed.sock')
     port = None
-    if conf['sockets'] and arrival != 'startup':
+    if conf['sockets'] and arrival not in ('startup', 'early-startup'):
         ls = d.call('listsockets')
         for s_ in ls.get('sockets', []):
             if s_.get('port'):
